@@ -7,6 +7,8 @@ use crate::pool::{Pool, Resp};
 
 pub mod c01;
 pub mod c02;
+pub mod c03;
+pub mod c04;
 pub mod c06;
 pub mod c07;
 pub mod snipbatch;
@@ -21,6 +23,8 @@ pub fn worker(prop: &str, case: &Value) -> Value {
     match prop {
         "C01" => c01::worker(case),
         "C02" => c02::worker(case),
+        "C03" => c03::worker(case),
+        "C04" => c04::worker(case),
         "C06" => c06::worker(case),
         "C07" => c07::worker(case),
         "C08" => c08::worker(case),
@@ -37,6 +41,8 @@ pub fn drive(prop: &str, tier: &str) -> i32 {
     match prop {
         "C01" => c01::drive(tier),
         "C02" => c02::drive(tier),
+        "C03" => c03::drive(tier),
+        "C04" => c04::drive(tier),
         "C06" => c06::drive(tier),
         "C07" => c07::drive(tier),
         "C08" => c08::drive(tier),
